@@ -76,7 +76,7 @@ def _op_paths(u):
     return [x for x in u[3:] if isinstance(x, str) and x.startswith("/")]
 
 
-def _unquiesced_related(case, is_trigger):
+def _unquiesced_related(case, is_trigger, other_side_only=False):
     """True iff some trigger op (e.g. a rename) and some *other* user op on a related path (equal, ancestor or
     descendant of one of the trigger's paths) are applied without the engine having gone quiet in between
     (no 'Q' item between them) - i.e. the schedule is not 'eager' around the trigger.  Returns the set of
@@ -103,6 +103,8 @@ def _unquiesced_related(case, is_trigger):
             lo, hi = min(i, j), max(i, j)
             if any(it and it[0] == "Q" for it in plan[lo + 1:hi]):
                 continue
+            if other_side_only and u[1] == t[1]:
+                continue
             if any(_related(p, q) for p in tp for q in rel_paths(u)):
                 out.update(tp)
     return out or None
@@ -128,10 +130,49 @@ def m_rename_race(f, case, viol):
     rp = _unquiesced_related(case, lambda u: u[2] in ("rename", "rename_dir"))
     if not rp:
         return False
+    if _file_only_stable_ids(case):
+        # Narrowed (hour 12, after 8 x 60 000 surveyed runs): in histories without any folder operation, on pairs whose ids are
+        # stable on both sides, case-sensitive, with an unmangled event feed, the unchanged engine only ever failed when the
+        # operation racing with the rename came from the OTHER user (contention for one name) or when one user re-used a name a
+        # rename had just vacated (name swap).  One user's other renames/edits/deletes of files converge on the unchanged tree and
+        # are therefore not covered by this finding.
+        rp = (_unquiesced_related(case, lambda u: u[2] == "rename", other_side_only=True) or set()) | _vacated_name_reuse(case)
+        if not rp:
+            return False
     if viol["cls"] in ("nonquiescent",):
         return True
     paths = _diff_paths(viol)
     return bool(paths) and all(any(_related(_unconf(p), q) for q in rp) for p in paths)
+
+
+def _vacated_name_reuse(case):
+    """paths of same-user rename pairs in which the later rename's destination is the name the earlier one vacated (a -> t,
+    b -> a: the pattern of a name swap), with no quiet point in between.  The unchanged engine fails on these too (about 1 in
+    7 000 one-sided runs once the generator produced swaps): the engine parks one of the user's files as '.conflicted'."""
+    plan = case.get("plan", [])
+    rn = [(i, it) for i, it in enumerate(plan) if it and it[0] == "U" and it[2] == "rename"]
+    out = set()
+    for a, (i, r1) in enumerate(rn):
+        for j, r2 in rn[a + 1:]:
+            if r2[1] != r1[1] or r2[4] != r1[3]:
+                continue
+            if any(it and it[0] == "Q" for it in plan[i + 1:j]):
+                continue
+            out.update(_op_paths(r1))
+            out.update(_op_paths(r2))
+    return out
+
+
+def _file_only_stable_ids(case):
+    ops = [it for it in case.get("plan", []) if it and it[0] in ("U", "A")]
+    if any(o[2] in ("mkdir", "rename_dir", "rmtree", "rmdir") for o in ops):
+        return False
+    flav = str(case.get("cfg", {}).get("flavour", ""))
+    if "_" in flav or "p" in flav or not flav:
+        return False
+    if case.get("rates") or case.get("crash") or case.get("faults"):
+        return False            # mangled feeds (C14), crash runs (C07) and fault runs (C10) keep the wide pattern
+    return True
 
 
 def m_dirdelete_race(f, case, viol):
